@@ -1132,8 +1132,9 @@ class Interp:
                     # that the two agree)
                     nb = (fr.w + 7) // 8
                     ls = fr.lanes + [0] * (nb * 8 - fr.w)
-                    yield [norm(AInt(ls[8 * i:8 * i + 8]))
-                           for i in reversed(range(nb))], env, st
+                    seq = [norm(AInt(ls[8 * i:8 * i + 8]))
+                           for i in reversed(range(nb))]
+                    yield (tuple(seq) if name == "pack" else seq), env, st
                     return
                 if name in ("is_reserved", "is_proprietary"):
                     yield fr.w in (20, 32) if name == "is_reserved" else \
